@@ -1,11 +1,13 @@
 import JoblibModel.ParallelProto
 import JoblibModel.ParallelSeq
+import JoblibModel.ParallelStartup
 import JoblibModel.IOUtil
 import JoblibModel.AutoBatch
 /-! Line protocol for M1 (shared by the C01/C04/C09/C16 drivers): a scenario of harness/ctl.py as a flat list of
 integers (see `Scenario.tokens`) → the model's event log joined by ` | `. -/
 namespace JoblibModel.ParallelDriver
 open JoblibModel.ParallelProto JoblibModel.IOUtil
+open JoblibModel.ParallelStartup (Fault)
 
 /-- Take `n` naturals from the token list. -/
 def takeNats : Nat → List Int → Option (List Nat × List Int)
@@ -36,7 +38,37 @@ def parseSched : Nat → List Int → Option (List (List Nat) × List Int)
     pure (e :: rest, l)
   | _ + 1, [] => none
 
-def parseScenario (toks : List Int) : Option (Cfg × List CallSpec × List (List Nat)) :=
+/-- The optional start-up-fault tail of a scenario line (after the schedule): `startGuard enterKind enterCls`, then
+`kind cls` for every call.  An absent tail = no fault, `startGuard = 1` (the lines of scenarios without faults are
+unchanged). -/
+structure Tail where
+  guard : Bool := true
+  enter : Fault := {}
+  faults : List Fault := []
+deriving Repr, Inhabited
+
+def parseFaults : Nat → List Int → Option (List Fault × List Int)
+  | 0, l => some ([], l)
+  | k + 1, kind :: cls :: l => do
+    if kind < 0 || cls < 0 then none
+    let f : Fault := ⟨kind.toNat, cls.toNat⟩
+    if !f.wf then none
+    let (rest, l) ← parseFaults k l
+    pure (f :: rest, l)
+  | _ + 1, _ => none
+
+def parseTail (ncalls : Nat) (managed0 : Bool) (calls : List CallSpec) : List Int → Option Tail
+  | [] => some {}
+  | sg :: ek :: ecls :: l => do
+    if sg < 0 || sg > 1 || ecls < 0 || ecls > 1 then none
+    -- the enter fault is `configure` raising in `__enter__`: only inside a with block, and then there is no block to leave (op 6)
+    if !(ek = 0 || (ek = 2 && managed0 && calls.all (fun cs => !cs.cons.contains 6))) then none
+    let (fs, l) ← parseFaults ncalls l
+    if l ≠ [] then none
+    pure ⟨sg != 0, ⟨ek.toNat, if ek = 0 then 0 else ecls.toNat⟩, fs⟩
+  | _ => none
+
+def parseScenario (toks : List Int) : Option (Cfg × List CallSpec × List (List Nat) × Option Tail) :=
   match toks with
   | nj :: auto :: nbs :: l => do
     if nj < 1 || nbs < 1 then none
@@ -49,8 +81,8 @@ def parseScenario (toks : List Int) : Option (Cfg × List CallSpec × List (List
       | ns :: l =>
         if ns < 0 then none
         let (sched, l) ← parseSched ns.toNat l
-        if l ≠ [] then none
-        pure (⟨nj.toNat, auto != 0, bs, pdMode.toNat, pd.toNat, ra.toNat, to, mg != 0, ad != 0⟩, calls, sched)
+        let tail ← if l = [] then pure none else (parseTail nc.toNat (mg != 0) calls l).map some
+        pure (⟨nj.toNat, auto != 0, bs, pdMode.toNat, pd.toNat, ra.toNat, to, mg != 0, ad != 0⟩, calls, sched, tail)
       | [] => none
     | _ => none
   | _ => none
@@ -80,9 +112,13 @@ def handle (line : String) : String :=
   | some toks =>
     match parseScenario toks with
     | none => "bad-op"
-    | some (c, calls, sched) =>
+    | some (c, calls, sched, none) =>
       -- `n_jobs == 1` after configuration: the sequential path
       if c.nj == 1 then " | ".intercalate (ParallelSeq.runScenarioSeq c calls sched)
       else " | ".intercalate (runScenario c calls sched)
+    | some (c, calls, sched, some t) =>
+      -- with start-up faults / the `startGuard` switch (JoblibModel/ParallelStartup.lean)
+      if c.nj == 1 then " | ".intercalate (ParallelStartup.runScenarioSeqF c t.guard t.enter (calls.zip t.faults) sched)
+      else " | ".intercalate (ParallelStartup.runScenarioF c t.guard t.enter (calls.zip t.faults) sched)
 
 end JoblibModel.ParallelDriver
